@@ -1,0 +1,163 @@
+//! Verification hooks (compiled only with `--cfg vibrato_verif`).
+//!
+//! These accessors expose internal state read-only so that an external harness can project
+//! the state of a worker or dictionary onto an abstract specification. They add no behaviour.
+#![allow(missing_docs)]
+
+use crate::dictionary::connector::{Connector, ConnectorCost, ConnectorWrapper};
+use crate::dictionary::{Dictionary, LexType, WordIdx};
+use crate::tokenizer::lattice::Node;
+use crate::tokenizer::worker::Worker;
+
+/// Snapshot of one lattice node.
+#[derive(Clone, Debug, PartialEq, Eq)]
+pub struct VerifNode {
+    pub start_node: usize,
+    pub start_word: usize,
+    pub lex_type: u8,
+    pub word_id: u32,
+    pub left_id: u16,
+    pub right_id: u16,
+    pub min_idx: u16,
+    pub min_cost: i32,
+}
+
+fn lex_type_num(t: LexType) -> u8 {
+    match t {
+        LexType::System => 0,
+        LexType::User => 1,
+        LexType::Unknown => 2,
+    }
+}
+
+/// Converts a number into a lexicon type (0 = system, 1 = user, 2 = unknown).
+pub fn lex_type_from_num(n: u8) -> LexType {
+    match n {
+        0 => LexType::System,
+        1 => LexType::User,
+        _ => LexType::Unknown,
+    }
+}
+
+/// Creates a word index from a lexicon-type number and a word id.
+pub fn word_idx(lex_type: u8, word_id: u32) -> WordIdx {
+    WordIdx::new(lex_type_from_num(lex_type), word_id)
+}
+
+fn snap(n: &Node) -> VerifNode {
+    VerifNode {
+        start_node: n.start_node,
+        start_word: n.start_word,
+        lex_type: lex_type_num(n.lex_type),
+        word_id: n.word_id,
+        left_id: n.left_id,
+        right_id: n.right_id,
+        min_idx: n.min_idx,
+        min_cost: n.min_cost,
+    }
+}
+
+/// Snapshot of the lattice buffer of a worker.
+#[derive(Clone, Debug)]
+pub struct VerifLattice {
+    /// `len_char` as recorded by the lattice at its last reset.
+    pub len_char: usize,
+    /// The whole buffer, one vector per end boundary (may be longer than `len_char + 1`).
+    pub ends: Vec<Vec<VerifNode>>,
+    /// EOS node of the last lattice.
+    pub eos: Option<VerifNode>,
+}
+
+impl Worker<'_> {
+    /// Snapshot of the lattice as it is after the last call.
+    pub fn verif_lattice(&self) -> VerifLattice {
+        VerifLattice {
+            len_char: self.lattice.len_char(),
+            ends: self
+                .lattice
+                .verif_ends()
+                .iter()
+                .map(|v| v.iter().map(snap).collect())
+                .collect(),
+            eos: self.lattice.verif_eos().map(snap),
+        }
+    }
+
+    /// Raw connection-id counters (left ids, right ids), if initialised.
+    pub fn verif_connid_counts(&self) -> Option<(Vec<usize>, Vec<usize>)> {
+        self.counter.as_ref().map(|c| {
+            let (l, r) = c.verif_counts();
+            (l.to_vec(), r.to_vec())
+        })
+    }
+
+    /// Number of characters of the sentence currently held.
+    pub fn verif_sentence_len(&self) -> usize {
+        self.sent.len_char()
+    }
+}
+
+impl Dictionary {
+    /// One cell of the connector.
+    pub fn verif_conn_cost(&self, right_id: u16, left_id: u16) -> i32 {
+        match self.connector() {
+            ConnectorWrapper::Matrix(c) => c.cost(right_id, left_id),
+            ConnectorWrapper::Raw(c) => c.cost(right_id, left_id),
+            ConnectorWrapper::Dual(c) => c.cost(right_id, left_id),
+        }
+    }
+
+    /// Connector kind: 0 = matrix, 1 = raw, 2 = dual.
+    pub fn verif_conn_kind(&self) -> u8 {
+        match self.connector() {
+            ConnectorWrapper::Matrix(_) => 0,
+            ConnectorWrapper::Raw(_) => 1,
+            ConnectorWrapper::Dual(_) => 2,
+        }
+    }
+
+    pub fn verif_num_left(&self) -> usize {
+        self.connector().num_left()
+    }
+
+    pub fn verif_num_right(&self) -> usize {
+        self.connector().num_right()
+    }
+
+    /// Stored parameters (left id, right id, cost) of a word.
+    pub fn verif_word_param(&self, idx: WordIdx) -> (u16, u16, i16) {
+        let p = self.word_param(idx);
+        (p.left_id, p.right_id, p.word_cost)
+    }
+
+    /// Unpacked character information: (category set, base id, invoke, group, length).
+    pub fn verif_char_info(&self, c: char) -> (u32, u32, bool, bool, u16) {
+        let i = self.char_prop().char_info(c);
+        (i.cate_idset(), i.base_id(), i.invoke(), i.group(), i.length())
+    }
+
+    /// Category id of a category name.
+    pub fn verif_cate_id(&self, name: &str) -> Option<u32> {
+        self.char_prop().cate_id(name)
+    }
+
+    /// The stored id mapper (old id -> new id), if any.
+    pub fn verif_mapper(&self) -> Option<(Vec<u16>, Vec<u16>)> {
+        self.mapper().map(|m| {
+            let (l, r) = m.verif_tables();
+            (l.to_vec(), r.to_vec())
+        })
+    }
+
+    /// Whether a user lexicon is loaded.
+    pub fn verif_has_user(&self) -> bool {
+        self.user_lexicon().is_some()
+    }
+}
+
+impl<'t> Worker<'t> {
+    /// The dictionary this worker tokenizes with.
+    pub fn verif_dictionary(&self) -> &'t Dictionary {
+        self.tokenizer.dictionary()
+    }
+}
